@@ -9,56 +9,56 @@ import (
 
 // Opcodes used by the gadgets.
 const (
-	STOP         = 0x00
-	ADD          = 0x01
-	SUB          = 0x03
-	LT           = 0x10
-	GT           = 0x11
-	EQ           = 0x14
-	ISZERO       = 0x15
-	ADDRESS      = 0x30
-	BALANCE      = 0x31
-	ORIGIN       = 0x32
-	CALLER       = 0x33
-	CALLVALUE    = 0x34
-	CALLDATALOAD = 0x35
-	CALLDATASIZE = 0x36
-	CALLDATACOPY = 0x37
-	CODECOPY     = 0x39
-	EXTCODESIZE  = 0x3b
-	EXTCODECOPY  = 0x3c
+	STOP           = 0x00
+	ADD            = 0x01
+	SUB            = 0x03
+	LT             = 0x10
+	GT             = 0x11
+	EQ             = 0x14
+	ISZERO         = 0x15
+	ADDRESS        = 0x30
+	BALANCE        = 0x31
+	ORIGIN         = 0x32
+	CALLER         = 0x33
+	CALLVALUE      = 0x34
+	CALLDATALOAD   = 0x35
+	CALLDATASIZE   = 0x36
+	CALLDATACOPY   = 0x37
+	CODECOPY       = 0x39
+	EXTCODESIZE    = 0x3b
+	EXTCODECOPY    = 0x3c
 	RETURNDATASIZE = 0x3d
 	RETURNDATACOPY = 0x3e
-	EXTCODEHASH  = 0x3f
-	TIMESTAMP    = 0x42
-	NUMBER       = 0x43
-	SELFBALANCE  = 0x47
-	POP          = 0x50
-	MLOAD        = 0x51
-	MSTORE       = 0x52
-	MSTORE8      = 0x53
-	SLOAD        = 0x54
-	SSTORE       = 0x55
-	JUMP         = 0x56
-	JUMPI        = 0x57
-	GAS          = 0x5a
-	JUMPDEST     = 0x5b
-	PUSH1        = 0x60
-	PUSH32       = 0x7f
-	DUP1         = 0x80
-	SWAP1        = 0x90
-	LOG0         = 0xa0
-	LOG1         = 0xa1
-	CREATE       = 0xf0
-	CALL         = 0xf1
-	CALLCODE     = 0xf2
-	RETURN       = 0xf3
-	DELEGATECALL = 0xf4
-	CREATE2      = 0xf5
-	STATICCALL   = 0xfa
-	REVERT       = 0xfd
-	INVALID      = 0xfe
-	SELFDESTRUCT = 0xff
+	EXTCODEHASH    = 0x3f
+	TIMESTAMP      = 0x42
+	NUMBER         = 0x43
+	SELFBALANCE    = 0x47
+	POP            = 0x50
+	MLOAD          = 0x51
+	MSTORE         = 0x52
+	MSTORE8        = 0x53
+	SLOAD          = 0x54
+	SSTORE         = 0x55
+	JUMP           = 0x56
+	JUMPI          = 0x57
+	GAS            = 0x5a
+	JUMPDEST       = 0x5b
+	PUSH1          = 0x60
+	PUSH32         = 0x7f
+	DUP1           = 0x80
+	SWAP1          = 0x90
+	LOG0           = 0xa0
+	LOG1           = 0xa1
+	CREATE         = 0xf0
+	CALL           = 0xf1
+	CALLCODE       = 0xf2
+	RETURN         = 0xf3
+	DELEGATECALL   = 0xf4
+	CREATE2        = 0xf5
+	STATICCALL     = 0xfa
+	REVERT         = 0xfd
+	INVALID        = 0xfe
+	SELFDESTRUCT   = 0xff
 )
 
 // Code is a byte buffer with helpers.
@@ -244,4 +244,118 @@ func InitCodeWith(prefix []byte, runtime []byte) []byte {
 	tail[5], tail[6] = byte(off>>8), byte(off)
 	out := append(append([]byte{}, prefix...), tail...)
 	return append(out, runtime...)
+}
+
+// ---------------------------------------------------------------------------
+// labels
+// ---------------------------------------------------------------------------
+
+// Prog is a Code with symbolic jump labels (PUSH2 placeholders patched in Assemble).
+type Prog struct {
+	Code
+	labels map[string]int
+	fixups map[int]string
+}
+
+func NewProg() *Prog { return &Prog{labels: map[string]int{}, fixups: map[int]string{}} }
+
+func (p *Prog) Label(name string) *Prog {
+	p.labels[name] = len(p.B)
+	p.Op(JUMPDEST)
+	return p
+}
+
+func (p *Prog) pushLabel(name string) {
+	p.fixups[len(p.B)+1] = name
+	p.Op(0x61, 0, 0)
+}
+
+func (p *Prog) JumpTo(name string) *Prog { p.pushLabel(name); p.Op(JUMP); return p }
+func (p *Prog) JumpIf(name string) *Prog { p.pushLabel(name); p.Op(JUMPI); return p }
+
+func (p *Prog) Assemble() []byte {
+	out := append([]byte{}, p.B...)
+	for pos, name := range p.fixups {
+		d, ok := p.labels[name]
+		if !ok {
+			panic("undefined label " + name)
+		}
+		out[pos], out[pos+1] = byte(d>>8), byte(d)
+	}
+	return out
+}
+
+const SHR = 0x1c
+
+// Forwarder returns the runtime code of a generic proxy. Call data layout:
+//
+//	[1 byte kind][20 bytes target][payload...]
+//
+// kind: 0 CALL, 1 DELEGATECALL, 2 STATICCALL, 3 CALLCODE. The payload is forwarded with all gas, the return data is
+// passed through, and the forwarder reverts (with the callee's return data) when the inner call fails.
+// With mode "swallow" the forwarder returns successfully (empty data) even when the inner call failed.
+func Forwarder(swallow bool) []byte {
+	p := NewProg()
+	// mem[0x400] = payload size ; copy payload to mem[0..]
+	p.PushU(21).Op(CALLDATASIZE, SUB).PushU(0x400).Op(MSTORE)
+	p.PushU(0x400).Op(MLOAD).PushU(21).PushU(0).Op(CALLDATACOPY)
+	target := func() { p.PushU(1).Op(CALLDATALOAD).PushU(96).Op(SHR) }
+	kind := func() { p.PushU(0).Op(CALLDATALOAD).PushU(248).Op(SHR) }
+	kind()
+	p.PushU(1).Op(EQ)
+	p.JumpIf("deleg")
+	kind()
+	p.PushU(2).Op(EQ)
+	p.JumpIf("static")
+	kind()
+	p.PushU(3).Op(EQ)
+	p.JumpIf("callcode")
+	// CALL
+	p.PushU(0).PushU(0).PushU(0x400).Op(MLOAD).PushU(0).PushU(0)
+	target()
+	p.Op(GAS, CALL)
+	p.JumpTo("after")
+	p.Label("deleg")
+	p.PushU(0).PushU(0).PushU(0x400).Op(MLOAD).PushU(0)
+	target()
+	p.Op(GAS, DELEGATECALL)
+	p.JumpTo("after")
+	p.Label("static")
+	p.PushU(0).PushU(0).PushU(0x400).Op(MLOAD).PushU(0)
+	target()
+	p.Op(GAS, STATICCALL)
+	p.JumpTo("after")
+	p.Label("callcode")
+	p.PushU(0).PushU(0).PushU(0x400).Op(MLOAD).PushU(0).PushU(0)
+	target()
+	p.Op(GAS, CALLCODE)
+	p.Label("after")
+	p.Op(RETURNDATASIZE).PushU(0).PushU(0).Op(RETURNDATACOPY)
+	if swallow {
+		p.Op(POP)
+		p.PushU(0).PushU(0).Op(RETURN)
+		return p.Assemble()
+	}
+	p.JumpIf("ok")
+	p.Op(RETURNDATASIZE).PushU(0).Op(REVERT)
+	p.Label("ok")
+	p.Op(RETURNDATASIZE).PushU(0).Op(RETURN)
+	return p.Assemble()
+}
+
+// ForwardData builds the call data for a Forwarder.
+func ForwardData(kind CallKind, target common.Address, payload []byte) []byte {
+	var k byte
+	switch kind {
+	case KCall:
+		k = 0
+	case KDelegateCall:
+		k = 1
+	case KStaticCall:
+		k = 2
+	case KCallCode:
+		k = 3
+	}
+	out := append([]byte{k}, target.Bytes()...)
+	return append(out, payload...)
 }
